@@ -45,11 +45,13 @@ type write struct {
 }
 
 type task struct {
-	id      int
-	script  []sim.ParStep
-	plans   []queryPlan // one per "query" step, in order
-	results []queryResult
-	panicV  string
+	extra    []sim.Querier // further open queries (step "burst")
+	rejected int           // attempts rejected because 64 queries were open
+	id       int
+	script   []sim.ParStep
+	plans    []queryPlan // one per "query" step, in order
+	results  []queryResult
+	panicV   string
 }
 
 // RoundStats are reach measures of a round.
@@ -57,6 +59,7 @@ type RoundStats struct {
 	Steps, Switches, InLock, TryFails, Stalls int
 	SharedSwitch                              int // preemptions inside the lock-free hint refresh of a shared filter
 	Tasks                                     int
+	Rejected                                  int // queries rejected because 64 were open
 	Queries                                   int
 	SharedFirstUse                            int
 }
@@ -166,6 +169,9 @@ func (se *Session) RunRound(r *sim.ParRound, raceLog string) []int16 {
 	se.Stats.TryFails += tryFails
 	se.Stats.Stalls += stalls
 	se.Stats.Tasks += n
+	for _, t := range tasks {
+		se.Stats.Rejected += t.rejected
+	}
 	if se.Sched != nil {
 		h := uint64(1469598103934665603)
 		for _, c := range sched {
@@ -227,6 +233,13 @@ func (t *task) run() {
 	defer func() {
 		if r := recover(); r != nil {
 			t.panicV = fmt.Sprint(r)
+			for _, qq := range t.extra {
+				func() {
+					defer func() { _ = recover() }()
+					qq.Close()
+				}()
+			}
+			t.extra = nil
 		}
 	}()
 	var q sim.Querier
@@ -249,7 +262,12 @@ func (t *task) run() {
 			pl = &t.plans[qi]
 			t.results = append(t.results, queryResult{count: -1})
 			res = &t.results[qi]
-			q = pl.pf.F.Query(pl.rels)
+			q = openOrRejected(pl)
+			if q == nil {
+				// all 64 lock bits are taken by other goroutines' queries at this moment
+				t.rejected++
+				res.closed = true
+			}
 		case "count":
 			if q != nil && !res.exhausted && !res.closed {
 				res.count = q.Count()
@@ -298,6 +316,18 @@ func (t *task) run() {
 			}
 		case "gc":
 			runtime.GC()
+		case "burst":
+			if pl == nil {
+				continue
+			}
+			for i := 0; i < st.N; i++ {
+				Yield()
+				if qq := openOrRejected(pl); qq != nil {
+					t.extra = append(t.extra, qq)
+				} else {
+					t.rejected++
+				}
+			}
 		}
 	}
 	if q != nil && !res.exhausted && !res.closed {
@@ -305,6 +335,25 @@ func (t *task) run() {
 		q.Close()
 		res.closed = true
 	}
+	for _, qq := range t.extra {
+		Yield()
+		qq.Close()
+	}
+	t.extra = nil
+}
+
+// openOrRejected opens one more query; nil if it was rejected because all 64 lock bits are in use.
+func openOrRejected(pl *queryPlan) (q sim.Querier) {
+	defer func() {
+		if r := recover(); r != nil {
+			if strings.Contains(fmt.Sprint(r), "run out of the maximum of") {
+				q = nil
+				return
+			}
+			panic(r)
+		}
+	}()
+	return pl.pf.F.Query(pl.rels)
 }
 
 func fileSize(path string) int64 {
